@@ -47,6 +47,20 @@ func VerifC14_glue_verify() {
 	}
 }
 
+// an honest signature verifies, with this package's verifier and the standard library's
+func VerifC14_sign_then_verify() {
+	vUnwind(140)
+	vUseModels("edabs")
+	priv := NewKeyFromSeed(vBytes("seed", 32, 32))
+	msg := vBytesC("msg", 0, vBound("C14_stv_msg_len", 2, 8))
+	sig := Sign(priv, msg)
+	pk := []byte(priv[32:])
+	vAssert(Verify(pk, msg, sig), "own-signature-verifies")
+	vAssert(stded.Verify(pk, msg, sig), "own-signature-verifies-with-standard-verifier")
+	vAssert(Verify(pk, msg, stded.Sign(stded.PrivateKey(priv), msg)), "standard-signature-verifies-here")
+	vReach("verified")
+}
+
 type c14Reader struct {
 	failAt, calls int
 	short         bool
